@@ -133,6 +133,8 @@ def fill_start(ctx, o, ps: PassShape):
         has_bound = args is not None and any(isinstance(a, ast.Name) and a.id == ps.bound for a in args)
         if has_end and has_bound:
             o.site(ps.f, c, f"fill starts at {src(st)}")
+        elif sched_fill._unresolved(ps.f, st):
+            o.undecided(ps.f, c, c.args[2], f"work is booked back from `{src(st)[:80]}`, which contains a term the rule cannot resolve")
         else:
             o.refute(ps.f, c, c.args[2], f"work is booked back from `{src(st)[:80]}`; expected min(task.end, bound)")
     first = first_day_offset(ctx, fill, S)
